@@ -218,7 +218,7 @@ func runnerExecute(w *World, r *Report, rule string) {
 		r.Undecided(rule, FuncName(fn), w.Pos(fn.Pos()), "command loop not recognised")
 		return
 	}
-	res := w.EnumPaths(fn, EnumOpts{Start: body})
+	res := w.EnumPaths(fn, EnumOpts{Inline: true, Start: body})
 	r.Count("paths", len(res.Paths))
 	bad := ""
 	n := 0
